@@ -11,6 +11,7 @@
 #include <Bpp/Numeric/Random/ContingencyTableGenerator.h>
 #include <Bpp/Numeric/Stat/ContingencyTableTest.h>
 #include <Bpp/Numeric/Prob/SimpleDiscreteDistribution.h>
+#include <Bpp/Numeric/Constraints.h>
 #include <Bpp/Numeric/Prob/GammaDiscreteDistribution.h>
 #include <Bpp/Numeric/Prob/GaussianDiscreteDistribution.h>
 #include <Bpp/Numeric/Prob/ExponentialDiscreteDistribution.h>
@@ -132,6 +133,22 @@ static std::string opKs(const Toks& t) {
   // offset + Gamma(alpha, beta): p = alpha, beta, offset
   if (fam == "dGammaOff") { GammaDiscreteDistribution d(4, p[0], p[1], 0.05, 0.05, true, p[2]); return ks(n, [&] { return d.randC(); }, [&](double x) { return d.pProb(x); }); }
   if (fam == "dUnif") { UniformDiscreteDistribution d(4, p[0], p[1]); return ks(n, [&] { return d.randC(); }, [&](double x) { return d.pProb(x); }); }
+  // restricted distributions (restrictToConstraint([lo, hi])): the continuous draw against the object's own cdf
+  // conditioned on the restricted domain, (pProb(x) - pProb(lo)) / (pProb(hi) - pProb(lo)); p = parameters..., lo, hi
+  if (fam == "rGamma" || fam == "rExpo" || fam == "rGauss" || fam == "rBeta" || fam == "rUnif") {
+    std::unique_ptr<AbstractDiscreteDistribution> d;
+    size_t k = p.size();
+    if (fam == "rGamma") d.reset(new GammaDiscreteDistribution(4, p[0], p[1]));
+    else if (fam == "rExpo") d.reset(new ExponentialDiscreteDistribution(4, p[0]));
+    else if (fam == "rGauss") d.reset(new GaussianDiscreteDistribution(4, p[0], p[1]));
+    else if (fam == "rBeta") d.reset(new BetaDiscreteDistribution(4, p[0], p[1]));
+    else d.reset(new UniformDiscreteDistribution(4, p[0], p[1]));
+    double lo = p[k - 2], hi = p[k - 1];
+    IntervalConstraint ic(lo, hi, true, true);
+    d->restrictToConstraint(ic);
+    double Flo = d->pProb(lo), Fhi = d->pProb(hi);
+    return ks(n, [&] { return d->randC(); }, [&](double x) { return x <= lo ? 0. : x >= hi ? 1. : (d->pProb(x) - Flo) / (Fhi - Flo); });
+  }
   if (fam == "dGauss") { GaussianDiscreteDistribution d(4, p[0], p[1]); return ks(n, [&] { return d.randC(); }, [&](double x) { return d.pProb(x); }); }
   if (fam == "dExpo") { ExponentialDiscreteDistribution d(4, p[0]); return ks(n, [&] { return d.randC(); }, [&](double x) { return d.pProb(x); }); }
   if (fam == "dTExpo") { TruncatedExponentialDiscreteDistribution d(4, p[0], p[1]); return ks(n, [&] { return d.randC(); }, [&](double x) { return d.pProb(x); }); }
